@@ -12,7 +12,8 @@ import z3
 from . import values as V
 from . import engine as E
 from . import ops
-from .values import SInt, SBool, SSeq, SStr, SEnum, SEnumValue, SObj, SFlags, SRat, SDateTime, STimeDelta, SAbs
+from .values import (SInt, SBool, SSeq, SStr, SEnum, SEnumValue, SObj, SFlags, SRat, SDateTime, STimeDelta, SAbs,
+                     SCoded, SCodedValue)
 from .ops import mk_exc, raise_
 
 INTERPRET_PREFIXES = ('cryptoparser',)
@@ -39,6 +40,10 @@ def method_model(kind, *names):
             METHOD_MODELS[(kind, n)] = g
         return g
     return deco
+
+
+class Decline(Exception):
+    """raised by a specification function for arguments outside the contract's domain: the body is interpreted"""
 
 
 class BoundMethod(object):
@@ -121,10 +126,37 @@ def py_type_of(v):
         return v.py_type or object
     if isinstance(v, SRat):
         return float
+    if isinstance(v, SCoded):
+        return object
     return type(v)
 
 
+def materialize(sc):
+    """concrete representative of a coded item: branches on whether the code is assigned"""
+    P = E.cur()
+    sp = sc.spec
+    if P.branch(sp.known(sc.code)):
+        idx = V.simp(sp.first_index(sc.code))
+        m = sp.members[idx.as_long()] if z3.is_int_value(idx) else SEnum(sp.enum_cls, idx)
+        return call(sp.wrap_known, [m], {}) if sp.wrap_known is not None else m
+    if sp.fallback_cls is None:
+        raise E.Unsupported('coded item with unknown code and no fallback class')
+    return construct(sp.fallback_cls, [ops.wrap_int(sc.code)], {})
+
+
 def isinstance_(o, t):
+    if isinstance(o, SCoded):
+        ts = t if isinstance(t, tuple) else (t,)
+        sp = o.spec
+        known_t = sp.enum_cls if sp.wrap_known is None else sp.wrap_known
+        k_hit = any(isinstance(x, type) and isinstance(known_t, type) and issubclass(known_t, x) for x in ts)
+        f_hit = any(isinstance(x, type) and sp.fallback_cls is not None and issubclass(sp.fallback_cls, x) for x in ts)
+        if k_hit and f_hit:
+            return True
+        if not k_hit and not f_hit:
+            return False
+        kn = sp.known(o.code)
+        return ops.wrap_bool(kn if k_hit else z3.Not(kn))
     ty = py_type_of(o)
     ts = t if isinstance(t, tuple) else (t,)
     return any(isinstance(x, type) and issubclass(ty, x) for x in ts)
@@ -197,6 +229,17 @@ def getattr_(o, name):
         return bind_descriptor(d, o, o.cls)
     if isinstance(o, SEnumValue):
         return enum_value_attr(o, name)
+    if isinstance(o, SCoded):
+        if name == 'value' and o.spec.wrap_known is None:
+            return SCodedValue(o)
+        return getattr_(materialize(o), name)
+    if isinstance(o, SCodedValue):
+        sc = o.sc
+        if name == 'code':
+            return ops.wrap_int(sc.code)
+        if name == 'get_code_size':
+            return lambda: sc.spec.width
+        return getattr_(getattr_(materialize(sc), 'value'), name)
     if isinstance(o, (SSeq, SStr, SInt, SBool, SFlags, SDateTime, STimeDelta, SAbs)):
         kind = {SSeq: 'seq', SStr: 'str', SInt: 'int', SBool: 'int', SFlags: 'flags', SDateTime: 'datetime',
                 STimeDelta: 'timedelta', SAbs: 'abs'}[type(o)]
@@ -374,7 +417,10 @@ def run_validator(v, o, a, val):
     elif n == '_DeepIterable':
         if v.iterable_validator is not None:
             run_validator(v.iterable_validator, o, a, val)
-        if isinstance(val, SSeq):
+        if isinstance(val, SFlags):
+            for m in val.bits:
+                run_validator(v.member_validator, o, a, m)
+        elif isinstance(val, SSeq):
             ok = seq_member_validator_ok(v.member_validator, val)
             if ok is not True:
                 raise E.Unsupported('deep_iterable over symbolic sequence')
@@ -423,6 +469,8 @@ def seq_elem(seq, i):
         return SEnum(seq.elem[1], ts)
     if isinstance(seq.elem, tuple) and seq.elem[0] == 'wrap':
         return seq.elem[1](t)
+    if isinstance(seq.elem, tuple) and seq.elem[0] == 'coded':
+        return SCoded(seq.elem[1], V.simp(t))
     raise E.Unsupported('element kind %r' % (seq.elem,))
 
 
@@ -592,6 +640,8 @@ def call(f, args, kw):
         return frame.run_closure(f, args, kw)
     if isinstance(f, types.MethodType):
         return call_function(f.__func__, [f.__self__] + args, kw)
+    if f in (dict, list, tuple) and f not in MODELS:
+        return native(f, args, kw)
     if isinstance(f, type):
         return construct(f, args, kw)
     if isinstance(f, types.FunctionType):
@@ -612,9 +662,17 @@ SAFE_CONTAINER_METHODS = {'append', 'insert', 'extend', 'items', 'keys', 'values
 
 
 def call_function(fn, args, kw):
+    if is_attrs_generated(fn) and fn.__name__ == '__init__' and args and isinstance(args[0], SObj):
+        for k in type.mro(args[0].cls):
+            if k.__dict__.get('__init__') is fn:
+                return attrs_init(k, args[0], args[1:], kw)
+        raise E.Unsupported('attrs __init__ owner not found')
     spec = CONTRACTS.get(fn)
     if spec is not None and fn not in INLINE:
-        return spec(*args, **kw)
+        try:
+            return spec(*args, **kw)
+        except Decline:
+            pass
     m = MODELS.get(fn)
     if m is not None:
         return m(*args, **kw)
